@@ -142,7 +142,7 @@ def toUnderscoresNoprefixSteps : List String := %s
 /-- string tests of `_guess_constructor_by_name` -/
 def guessConstructorTests : List String := %s
 
-/-- the class at which the ancestor walk of `_is_constructor` stops -/
+/-- class names at which the ancestor walk of `_is_constructor` stops early (none: it walks to the root) -/
 def ctorWalkRoots : List String := %s
 
 /-- string tests of `Function.is_type_meta_function` -/
